@@ -36,6 +36,10 @@ Patterns == { PAnd(<<I("p"), r, I("q")>>) : r \in Repeated }
        \* the same repeated item at two places of one rule (in the `alias' spelling the two are ONE YAML node,
        \* written once with an anchor and referred to by an alias)
        \cup { PAnd(<<r, I("p"), r, I("q")>>) : r \in Repeated }
+       \* a range on an item and the same range on the argument of a neighbouring $not (bounds are values: what one
+       \* node does with its bounds must not reach another node's)
+       \cup { PAnd(<<I("p"), WithTimes(I("a"), b[1], b[2]), PNot(WithTimes(I("b"), b[1], b[2])), I("q")>>) : b \in { <<2, 3>>, <<1, 2>> } }
+       \cup { PAnd(<<I("p"), PNot(WithTimes(I("b"), b[1], b[2])), WithTimes(I("a"), b[1], b[2]), I("q")>>) : b \in { <<2, 3>>, <<1, 2>> } }
        \cup Unrolled
        \* optional items and groups whose mnemonics are real words (text that occurs nowhere else in the stream --
        \* single letters also occur inside addresses)
@@ -58,6 +62,8 @@ Listings == { WithAddrs(<< <<"p", <<>> >> >> \o s \o << <<"q", <<>> >> >>) : s \
 
        \cup { WithAddrs(<< <<"p", <<>> >> >> \o s \o << <<"q", <<>> >> >>)
               : s \in SeqsBetween({ <<"inc", <<>> >>, <<"xchg", <<>> >>, <<"leave", <<>> >> }, 0, 3) }
+       \cup { WithAddrs(<< <<"p", <<>> >> >> \o [k \in 1..n |-> <<"a", <<>> >>] \o << <<"c", <<>> >>, <<"q", <<>> >> >>) : n \in 0..4 }
+       \cup { WithAddrs(<< <<"p", <<>> >>, <<"c", <<>> >> >> \o [k \in 1..n |-> <<"a", <<>> >>] \o << <<"q", <<>> >> >>) : n \in 0..4 }
 
 Universe == [patterns |-> SetToSeq(Patterns), listings |-> SetToSeq(Listings)]
 \* the repeated form under mnemonics-full-match: runs mixing `a' with a mnemonic that merely contains it
